@@ -132,6 +132,135 @@ theorem duplicate_served (P : Prog) (exec) (s : St) (key : Key) (fl : Flags) (r 
     runLocal P exec s key fl = some (s, serve r fl, r) :=
   runLocal_hit h
 
+/-! ## Batches issued from inside another memento function
+
+The same equality one level down: a `call_batch` made by the body of a running function (frame `caller`) does what the
+individual calls made from that frame do — same store, same outcomes **and the same mementos handed back to the caller**, so
+the caller's recorded invocations and dependencies (`propagate`) are the same. Stated for calls the frame may make (declared
+dependency, further calls not prevented); a refused batch is refused as a whole (`prevent_further_calls`, C16). -/
+
+/-- individual calls `f(a₁), …, f(aₙ)` made from frame `caller` (or from the top level when `none`), in order -/
+def seqCallsFrom (P : Prog) (n : Nat) (caller : Option Frame) :
+    St → Fn → List Val → CtxSpec → Flags → Option (St × List Outcome × List Rec)
+  | s, _, [], _, _ => some (s, [], [])
+  | s, fn, a :: as, ctx, fl =>
+    match run P n s caller fn [a] ctx fl with
+    | some (s1, .ok [o], [r]) =>
+      match seqCallsFrom P n caller s1 fn as ctx fl with
+      | some (s2, os, rs) => some (s2, o :: os, r :: rs)
+      | none => none
+    | _ => none
+
+theorem run_single_from (P : Prog) (n : Nat) (s : St) (caller : Option Frame) (fn : Fn) (arg : Val) (ctx : CtxSpec)
+    (fl : Flags) (hu : undeclared P caller fn = false) (hp : prevented caller = false) :
+    run P (n + 1) s caller fn [arg] ctx fl =
+      match s.get ⟨fn, arg, effCtx caller ctx⟩ with
+      | some r => some (s, .ok [serve r fl], [r])
+      | none =>
+        match runLocal P (E P n) s ⟨fn, arg, effCtx caller ctx⟩ fl with
+        | none => none
+        | some (s1, o, r) => some (s1, .ok [o], [r]) := by
+  rw [run_succ, runBatchWith_eq]
+  simp only [hu, hp, List.map_cons, List.map_nil, batchLoop_single, Bool.false_eq_true, if_false]
+  cases s.get ⟨fn, arg, effCtx caller ctx⟩ with
+  | some r => rfl
+  | none =>
+    simp only []
+    cases runLocal P (E P n) s ⟨fn, arg, effCtx caller ctx⟩ fl with
+    | none => rfl
+    | some x => rfl
+
+theorem seqCallsFrom_cons (P : Prog) (n : Nat) (caller : Option Frame) (s : St) (fn : Fn) (a : Val) (as : List Val)
+    (ctx : CtxSpec) (fl : Flags) (hu : undeclared P caller fn = false) (hp : prevented caller = false) :
+    seqCallsFrom P (n + 1) caller s fn (a :: as) ctx fl =
+      match s.get ⟨fn, a, effCtx caller ctx⟩ with
+      | some r =>
+        (match seqCallsFrom P (n + 1) caller s fn as ctx fl with
+         | some (s2, os, rs) => some (s2, serve r fl :: os, r :: rs)
+         | none => none)
+      | none =>
+        match runLocal P (E P n) s ⟨fn, a, effCtx caller ctx⟩ fl with
+        | none => none
+        | some (s1, o, r) =>
+          match seqCallsFrom P (n + 1) caller s1 fn as ctx fl with
+          | some (s2, os, rs) => some (s2, o :: os, r :: rs)
+          | none => none := by
+  rw [seqCallsFrom, run_single_from P n s caller fn a ctx fl hu hp]
+  cases s.get ⟨fn, a, effCtx caller ctx⟩ with
+  | some r => rfl
+  | none =>
+    simp only []
+    cases runLocal P (E P n) s ⟨fn, a, effCtx caller ctx⟩ fl with
+    | none => rfl
+    | some x => rfl
+
+theorem batchLoop_eq_seq_from (P : Prog) (n : Nat) (caller : Option Frame) (s0 : St) (fn : Fn) (ctx : CtxSpec) (fl : Flags)
+    (hu : undeclared P caller fn = false) (hp : prevented caller = false) :
+    ∀ (args : List Val) (s : St), (∀ k r, s0.get k = some r → s.get k = some r) →
+      batchLoop P (E P n) fl s (args.map (fun a => ((⟨fn, a, effCtx caller ctx⟩ : Key), s0.get ⟨fn, a, effCtx caller ctx⟩)))
+        = seqCallsFrom P (n + 1) caller s fn args ctx fl
+  | [], s, _ => by simp only [List.map_nil, batchLoop, seqCallsFrom]
+  | a :: as, s, hg => by
+    rw [seqCallsFrom_cons P n caller s fn a as ctx fl hu hp, List.map_cons]
+    cases h0 : s0.get ⟨fn, a, effCtx caller ctx⟩ with
+    | some r =>
+      rw [batchLoop_cons_some, hg _ _ h0, ← batchLoop_eq_seq_from P n caller s0 fn ctx fl hu hp as s hg]
+      simp only []
+      generalize batchLoop _ _ _ _ _ = x
+      cases x with
+      | none => rfl
+      | some y => rfl
+    | none =>
+      rw [batchLoop_cons_none]
+      cases hs : s.get ⟨fn, a, effCtx caller ctx⟩ with
+      | some r =>
+        rw [runLocal_hit hs, ← batchLoop_eq_seq_from P n caller s0 fn ctx fl hu hp as s hg]
+        simp only []
+        generalize batchLoop _ _ _ _ _ = x
+        cases x with
+        | none => rfl
+        | some y => rfl
+      | none =>
+        simp only []
+        cases hl : runLocal P (E P n) s ⟨fn, a, effCtx caller ctx⟩ fl with
+        | none => rfl
+        | some x =>
+          obtain ⟨s1, o, r⟩ := x
+          have hg1 : ∀ k r, s0.get k = some r → s1.get k = some r :=
+            fun k r h => (runLocal_ext (E_ext P n) hl).1.grows k r (hg k r h)
+          simp only []
+          rw [← batchLoop_eq_seq_from P n caller s0 fn ctx fl hu hp as s1 hg1]
+          generalize batchLoop _ _ _ _ _ = x
+          cases x with
+          | none => rfl
+          | some y => rfl
+
+/-- **a batch made from any frame = the individual calls made from that frame**, position by position, with the same
+    final store, the same executions and the same mementos handed to the caller -/
+theorem batch_eq_calls_from (P : Prog) (n : Nat) (s : St) (caller : Option Frame) (fn : Fn) (args : List Val)
+    (ctx : CtxSpec) (fl : Flags) (hu : undeclared P caller fn = false) (hp : prevented caller = false) :
+    (match run P (n + 1) s caller fn args ctx fl with
+     | some (s', .ok os, rs) => some (s', os, rs)
+     | _ => none) = seqCallsFrom P (n + 1) caller s fn args ctx fl := by
+  rw [← batchLoop_eq_seq_from P n caller s fn ctx fl hu hp args s (fun _ _ h => h)]
+  rw [run_succ, runBatchWith_eq]
+  simp only [hu, hp, Bool.false_eq_true, if_false]
+  cases batchLoop P (E P n) fl s (args.map (fun a => ((⟨fn, a, effCtx caller ctx⟩ : Key), s.get ⟨fn, a, effCtx caller ctx⟩))) with
+  | none => rfl
+  | some x => rfl
+
+/-- what the caller's frame records is the same: folding the batch's mementos into the frame is folding the individual
+    calls' mementos one after the other -/
+theorem propagate_batch_eq_calls (fr : Frame) (r : Rec) (rs : List Rec) :
+    (r :: rs).foldl propagate fr = rs.foldl propagate (propagate fr r) := rfl
+
+/-- a batch from a frame whose further calls are prevented is refused as a whole with a runtime error, whatever is memoized -/
+theorem prevented_batch_refused (P : Prog) (n : Nat) (s : St) (fr : Frame) (fn : Fn) (args : List Val) (ctx : CtxSpec)
+    (fl : Flags) (hu : undeclared P (some fr) fn = false) (hp : fr.prevent = true) :
+    run P (n + 1) s (some fr) fn args ctx fl = some (s, .error (.exc clsRuntime 0), []) := by
+  rw [run_succ, runBatchWith_eq]
+  simp only [hu, prevented, hp, Bool.false_eq_true, if_false, if_true]
+
 /-! non-vacuity: duplicates and a failing element, one element memoized beforehand -/
 private def demoDefs : List (Fn × FnDef) := [(1, ⟨[], 3, 1, clsRebuildable, 5, 10, false⟩)]
 private def demoP : Prog := progOf demoDefs []
@@ -142,5 +271,12 @@ example : (batchTop demoP 5 warm 1 [0, 1, 0, 2] .inherit {}).map (fun x => (x.2,
     some ([.val (some 10), .exc clsRebuildable 5, .val (some 10), .val (some 30)], 3) := by decide
 example : (batchTop demoP 5 warm 1 [0, 1, 0, 2] .inherit {}).map (fun x => (x.2, x.1.trace)) =
     (seqCalls demoP 5 warm 1 [0, 1, 0, 2] .inherit {}).map (fun x => (x.2, x.1.trace)) := by decide
+
+/-- a frame of function 1 (running `f1(7)`) issuing the batch: hypotheses of `batch_eq_calls_from` hold, and both sides agree -/
+private def demoFr : Frame := { key := ⟨1, 7, 0⟩, prevent := false, invs := [], res := [], deps := [1] }
+example : undeclared demoP (some demoFr) 1 = false ∧ prevented (some demoFr) = false := by decide
+example : (match run demoP 5 warm (some demoFr) 1 [0, 1, 0, 2] .inherit {} with
+    | some (s', .ok os, rs) => some (s'.trace, os, rs.map (·.key))
+    | _ => none) = (seqCallsFrom demoP 5 (some demoFr) warm 1 [0, 1, 0, 2] .inherit {}).map (fun x => (x.1.trace, x.2.1, x.2.2.map (·.key))) := by decide
 
 end Memento.Runner
